@@ -119,15 +119,20 @@ def run(r):
     quick = r.tier == "quick"
     r.trusted += TRUSTED_COMMON + [
         "f64 arithmetic on integers below 2^53 is exact integer arithmetic (the models of bits/base/bytes compute in Z); checked by the tie on every run",
-        "the bit-level float casts of the binary model (f64<->integer, f64<->f32: Model/Codec.v c_to_int, c_of_int, c_to_f32, c_of_f32) agree with rustc's `as` casts; checked by the tie's cast cases on every run",
+        "the bit-level float casts of the binary model (f64<->integer, f64<->f32, negative-zero test: Model/Codec.v c_to_int, c_of_int, c_to_f32, c_of_f32, negzero) agree with rustc's `as` casts bit for bit, NaN payloads/sign, subnormals and the f32 range edges included; checked by the tie's cast cases and by the encoder bytes of the special-value corpus on every run (they are premises `num_laws` of the binary theorems, not proved for the f64 instance)",
         "Rust's String::from_utf8 / into_bytes / encode_utf16 / from_utf16 are the standard UTF-8/UTF-16 codecs on Unicode scalar values (Model Utf8/Utf16); checked by the tie incl. malformed inputs",
-        "serde_json/json5, csv, flate2, the number formatter and `repr` are not modelled: search only",
+        "base: the floating-point logarithm behind the row length is not modelled (parameter `est`); the tie checks on every base case that the implementation's row length is sufficient and at most one digit longer than needed",
+        "validate_size's limits on non-empty shapes (u32::MAX elements, UIUA_MAX_MB) are subsumed in the decoder model by the remaining-input guards; only the rule for empty shapes (product of the non-zero dims <= 2^63) is modelled",
+        "serde_json/json5, csv, flate2, the number printer/parser, graphemes and `repr` are not modelled: search only; the f32/f64 formats of `bytes`, list bases and subscripted bits likewise",
         "native endianness = little endian on the checked platform",
     ]
     r.assumptions += [
-        "bits/base: integers with |n| < 2^53 (documented precision warning), scalar base >= 2; base: the floor of the floating-point logarithm is at most one digit short (est_close) - the tie checks on every base case that the implementation's row length is exactly the number of digits the largest entry needs",
-        "binary (C18_from_binary_to_binary): values without map keys, rank <= 255, dims < 2^32, nesting <= 32, label valid UTF-8 and utf-8 lengths < 2^32, element count = product of shape (C05), the numeric casts satisfy num_laws (inhabited; tied for f64 by the cast cases); map keys are covered by the tie only",
-        "bytes: every integer format (u8 ... i128), values within the format's range",
+        "bits: integers with |n| < 2^53 (documented precision warning), any shape, negatives included, element count = product of shape",
+        "base: scalar base >= 2, |n| < b^len (C18_antibase_base) resp. the floor of the float logarithm at most one digit short (est_close, C18_antibase_base_auto)",
+        "utf8/utf16: code points are Unicode scalar values (what a uiua character is); utf8_un_utf8: the decoder accepted the bytes",
+        "bytes: every integer format u8 ... i128 (width >= 1 byte), values within the format's range, element count = product of shape",
+        "binary (C18_from_binary_to_binary, C18_binary_num_roundtrip): values WITHOUT map keys, flags <= 15, label valid UTF-8 shorter than 2^32, rank <= 255, dims < 2^32, product of the non-zero dims <= 2^63, nesting <= 32, element count = product of shape (C05), f64 patterns < 2^64, the numeric casts satisfy num_laws (inhabited; tied for f64). The result is bit-exact (negative zero and NaN payloads included); numbers 0..255 may come back in byte storage. Map keys inside binary are covered by the tie only",
+        "json: what the documentation shows (lists of finite numbers, strings, heterogeneous boxed lists, maps with string keys); csv: rank-2 arrays of boxed strings; compress: byte strings x gzip/zlib/deflate",
     ]
     if not r.harness(["c18"]):
         return
@@ -225,7 +230,15 @@ def run(r):
                     theorem=THEOREM.get(v["violation"].split("-")[0]))
     r.coverage["evaluations"] = len(used) + evals
     r.coverage["distinct_nontrivial"] = len(set(json.dumps(c, sort_keys=True) for c in used if c.get("d") or c.get("cps") or c.get("bytes") or c.get("v")))
-    r.coverage["rule"] = ("tie: generated integer arrays (rank 0-3, empty axes, negatives, up to 2^113), strings over a code-point pool incl. astral/combining/"
-                          "boundary code points, mutated/truncated/hand-made malformed UTF-8/16, every integer byte format x 3 endianness modes incl. saturating inputs, "
-                          "values of every element type rank 0-4 with labels/maps/flags/nesting up to the depth cap and mutated encodings; non-trivial = non-empty input. "
-                          "search: the same generators through the real encoder and decoder, compared with uiua equality + shape + type + label + map keys")
+    r.coverage["rule"] = (
+        "tie (model vs implementation, encoder output compared byte for byte, decoder verdict and decoded BIT PATTERNS compared): a fixed regression corpus first "
+        "(inputs of the repaired defects: base exact powers, i8 shapes, malformed box counts / overflowing shapes decoded in a child process, negative zero, empty complex lists, "
+        "escape + runs of cluster-joining characters, +-i with signed zero real parts), then the boundary corpus of `binary` (every width-class boundary; 20 special patterns - NaNs with "
+        "payload/sign incl. W and the map sentinels, signalling NaN, +-0, f64 and f32 subnormals, f32::MAX and just above, infinities - alone and next to a companion of every width class), "
+        "then generated inputs: integer arrays (rank 0-3, empty axes, negatives, up to 2^113), strings over a code-point pool incl. astral/combining/boundary code points and segments "
+        "`escaped char + 1-4 cluster-joining chars`, mutated/truncated/hand-made malformed UTF-8/16, every integer byte format x 3 endianness modes incl. saturating inputs, values of every "
+        "element type rank 0-4 with labels/maps/flags/nesting up to the depth cap, and truncated/byte-flipped/extended encodings; float cast cases on special and random bit patterns. "
+        "non-trivial = non-empty input. "
+        "search (implementation only, all codecs of the property): the same corpora and generators through encoder then decoder: binary (bit-exact incl. NaN payloads), repr (evaluate the text; "
+        "bit-exact except NaN payloads), number print/parse of finite floats, utf8/utf16/graphemes, bits, base (incl. every power of 13 bases +-1), json, csv, compress (3 algorithms, "
+        "decompress with and without naming the algorithm), bytes (12 formats x 3 endianness modes; f32/f64 bit-exact); compared with uiua equality + shape + type + label + map keys")
